@@ -41,6 +41,7 @@ def plan(tier, seed):
     specs = [{"mode": "pels", "n": n, "rseed": seed * 1000 + i, "registry": i % 3 != 2} for i in range(11)]
     specs += [{"mode": "m2c00", "rseed": seed * 1000 + 100 + i, "reps": 1 if tier == "quick" else 20} for i in range(2)]
     specs += [{"mode": "noplugins", "n": 6 if tier == "quick" else 150, "rseed": seed * 1000 + 200 + i} for i in range(3)]
+    specs += [{"mode": "cli", "n": 400 if tier == "quick" else 8000, "rseed": seed * 1000 + 300 + i} for i in range(2)]
     return specs
 
 
@@ -48,7 +49,7 @@ def minimums(tier):
     return {"ud.calls_checked": 1500, "src.calls_checked": 800, "imports.pels_checked": 2000, "containment.pairs": 500,
             "noplugins.decodes": 500, "noplugins.subprocess_runs": 100, "m2c00.routing_checked": 900,
             "osrc.component_routing": 200, "osrc.bc_routing": 40, "callout.calls_checked": 100,
-            "src.parser_module_fails_at_import": 150}
+            "src.parser_module_fails_at_import": 150, "cli.mode_runs": 500, "cli.mode_runs_with_dominated_options": 300}
 
 
 def ud_module(creator, comp):
@@ -135,7 +136,7 @@ def build_pel(rng, u, reg, plugins):
     return pm.Pel(creator, pm.gen_ph(rng, u, creator), pm.gen_uh(rng, creator), secs)
 
 
-def check_pel(ctx, pel, plugins, rng):
+def check_pel(ctx, pel, plugins, rng, via=None):
     data = pel.encode()
     del REQUESTS[:]
     fxlog.reset()
@@ -145,7 +146,7 @@ def check_pel(ctx, pel, plugins, rng):
     ctx.case(data + bytes([plugins]), consults,
              sample={"creator": pel.creator, "sections": [s.note or s.kind for s in pel.sections], "plugins": plugins}
              if ctx.evaluations < 3 else None)
-    o = harness.decode(data, cfg)
+    o = via(data, plugins) if via else harness.decode(data, cfg)
     reqs, calls = list(REQUESTS), list(fxlog.CALLS)
     if o.kind != "doc":
         ctx.violation("C18/pel-lost", "a PEL whose parser modules misbehave was not decoded at all: %r (sections %s)" %
@@ -413,6 +414,40 @@ def run(spec, ctx):
         return run_m2c00(spec, ctx, rng, u)
     if spec["mode"] == "noplugins":
         return run_noplugins(spec, ctx, rng, u, reg)
+    if spec["mode"] == "cli":
+        # the same checks with the PEL decoded by a peltool command line: a full-display mode alone or with options on
+        # the line that do not apply to it (lower-precedence mode options, either spelling)
+        from vf import cliparse
+        root = harness.scratch_root()
+        d = os.path.join(root, "climodes")
+        os.makedirs(d, exist_ok=True)
+        excl = os.path.join(root, "cli-excl.txt")
+        with open(excl, "w") as f:
+            f.write("ZZZZZZZZ\n")
+        for i in range(spec["n"]):
+            plugins = rng.random() < 0.8
+            pel = build_pel(rng, u, reg, plugins)
+            name = "2025010112000000_%08X" % pel.eid
+            path = os.path.join(d, name)
+            mode = rng.choice(["-f", "-f", "-i", "--bmc-id"])
+            soup = cliparse.dominated_options(rng, mode, eid=pel.eid ^ 1, plid=pel.plid, excl=excl, allow_clean=False) \
+                if i % 3 else []
+
+            def via(data, plugins):
+                with open(path, "wb") as f:
+                    f.write(data)
+                base = {"-f": ["-f", path], "-i": ["-p", d, "-i", "%08X" % pel.eid], "--bmc-id": ["-p", d, "--bmc-id", str(pel.bmcid)]}[mode]
+                argv = base + [x for x in soup if x not in ("-c", "--clean")] + ["-E"] + ([] if plugins else ["-P"])
+                ctx.current["command_line"] = " ".join(argv)
+                ctx.count("cli.mode_runs")
+                if soup:
+                    ctx.count("cli.mode_runs_with_dominated_options")
+                try:
+                    return harness.cli_outcome(argv)
+                finally:
+                    os.unlink(path)
+            check_pel(ctx, pel, plugins, rng, via=via)
+        return
     for i in range(spec["n"]):
         plugins = rng.random() < 0.8
         pel = build_pel(rng, u, reg, plugins)
